@@ -189,7 +189,7 @@ def StructTag(
 
         @classmethod
         def _decode(cls, stream: BytesIO):
-            stream = BytesIO(stream.read(cls.size))
+            stream = BytesIO(cls._stream_read(stream, cls.size))
             raw = stream.getvalue()
             values = {}
 
